@@ -5,6 +5,7 @@ import (
 	"encoding/xml"
 	"errors"
 	"fmt"
+	"strings"
 	"time"
 
 	"go.lstv.dev/util/date"
@@ -196,6 +197,75 @@ func c01Case(w *rt.W, st *c01State, y int64, m, d int, slow bool) {
 			var xa xmlAttr
 			err = xml.Unmarshal([]byte(`<T d="`+text+`"></T>`), &xa)
 			check("xml.Unmarshal attribute", xa.D, err)
+			if w.C.Quick() && (y+int64(m)+int64(d))%8 != 0 {
+				continue // quick tier: one slow date in eight takes the alternative spellings
+			}
+			// the same text as the container formats may legally spell it: JSON \u escapes, XML character
+			// references, CDATA sections and comments; as struct field, array element and map key
+			esc := func(s string, all bool) string {
+				var sb strings.Builder
+				for i := 0; i < len(s); i++ {
+					if all || s[i] == '-' || i == 0 {
+						fmt.Fprintf(&sb, "\\u%04x", s[i])
+					} else {
+						sb.WriteByte(s[i])
+					}
+				}
+				return sb.String()
+			}
+			for vi, doc := range []string{`"` + esc(text, false) + `"`, `"` + esc(text, true) + `"`, " \n\t\"" + text + "\" \r\n"} {
+				var j date.Date
+				err = json.Unmarshal([]byte(doc), &j)
+				check(fmt.Sprintf("json.Unmarshal of escaped/padded spelling %d", vi), j, err)
+			}
+			{
+				var js struct {
+					D  date.Date            `json:"d"`
+					P  *date.Date           `json:"p"`
+					L  []date.Date          `json:"l"`
+					M  map[date.Date]int    `json:"m"`
+					MS map[string]date.Date `json:"ms"`
+				}
+				err = json.Unmarshal([]byte(`{"d": "`+esc(text, false)+`", "p":"`+text+`", "l":["`+text+`","`+esc(text, true)+`"], "m":{"`+esc(text, false)+`":1}, "ms":{"k":"`+text+`"}}`), &js)
+				check("json.Unmarshal struct field (escaped)", js.D, err)
+				if err == nil && !tooLong {
+					check("json.Unmarshal pointer field", *js.P, nil)
+					for _, e := range js.L {
+						check("json.Unmarshal array element", e, nil)
+					}
+					for k := range js.M {
+						check("json.Unmarshal map key (escaped)", k, nil)
+					}
+					check("json.Unmarshal map value", js.MS["k"], nil)
+					if len(js.L) != 2 || len(js.M) != 1 {
+						c01Fail(w, "in-wrong-date", y, m, d, "json.Unmarshal containers "+text, fmt.Sprint(len(js.L), " elements, ", len(js.M), " keys"), "2 elements, 1 key")
+					}
+				}
+				dec := json.NewDecoder(strings.NewReader(`"` + esc(text, false) + `" "` + text + `"`))
+				var j1, j2 date.Date
+				err = dec.Decode(&j1)
+				check("json.Decoder first value (escaped)", j1, err)
+				if err == nil {
+					err = dec.Decode(&j2)
+					check("json.Decoder second value", j2, err)
+				}
+			}
+			ref45 := strings.ReplaceAll(text, "-", "&#45;")
+			if !strings.Contains(text, "-") {
+				ref45 = "&#" + fmt.Sprint(int(text[0])) + ";" + text[1:]
+			}
+			refHex := "&#x" + fmt.Sprintf("%x", text[0]) + ";" + text[1:]
+			for vi, body := range []string{"<![CDATA[" + text + "]]>", ref45, refHex, text + "<!-- c -->", "<!--c-->" + text, text[:4] + "<!-- c -->" + text[4:], text[:2] + "<![CDATA[" + text[2:] + "]]>", text + "<?pi x?>"} {
+				var xe xmlElem
+				err = xml.Unmarshal([]byte("<T><d>"+body+"</d></T>"), &xe)
+				check(fmt.Sprintf("xml.Unmarshal element, alternative spelling %d", vi), xe.D, err)
+			}
+			for vi, av := range []string{ref45, refHex} {
+				var xa xmlAttr
+				err = xml.Unmarshal([]byte(`<T d='`+av+`'></T>`), &xa)
+				check(fmt.Sprintf("xml.Unmarshal attribute, alternative spelling %d", vi), xa.D, err)
+			}
+			w.ClassN("container-level-alternative-spellings", 1)
 		}
 	}
 
@@ -421,4 +491,5 @@ func runC01(c *rt.Ctx) {
 		c.Require(cl, 1)
 	}
 	c.Require("leap-day", 2425)
+	c.Require("container-level-alternative-spellings", 1000)
 }
